@@ -1,6 +1,22 @@
 """Per-property manifest metadata.  bin/mkmanifest renders MANIFEST.json from this."""
 
 CHECKS = {
+    "C11": dict(
+        text="spec/Gateway.tla models bellows.uart.Gateway on top of AshHost.tla at event-loop-callback granularity (reset waiter and "
+             "start-up waiter each none / pending / resolved-but-not-yet-resumed, callers joining a reset in progress, reset timeout, "
+             "reset-code triage, connection loss / clean close). GatewayMC checks that a reset completes only on the software-reset "
+             "acknowledgement, other codes and ERROR are reported as failures, waiters are released on loss (also in the iteration that "
+             "resolved one) and a second request writes no second RST. The real Gateway + AshProtocol on a fake serial transport run in "
+             "virtual time through RSTACK (16 codes quick / all 256 thorough) and ERROR frames x 7 arrival patterns after prior traffic "
+             "leaving the counters anywhere in 0..7, followed by a send and a DATA frame numbered 0, with the connection lost before every "
+             "step (error, clean close, EOF) or queued right behind every read; TLC validates each run against Trace_Gateway "
+             "(CANCEL-prefixed RST, outcome and exact time of reset()/wait_for_startup_reset(), application notices, numbering on the wire).",
+        design_ref="3/C11",
+        note="Trusted: fake serial transport (close() reports connection_lost(None) from the loop), virtual time, ashref.py. A caller that "
+             "joins a reset in progress may see a cancellation instead of the timeout (latitude; the code logs such a request as an error). "
+             "Found and fixed one defect (InvalidStateError in Gateway.connection_lost).",
+        technique="TLA+ spec + TLC exhaustive model check; enumerated schedules with crash points executed on the implementation in virtual time; TLC trace validation",
+    ),
     "C08": dict(
         text="The `mal` step of Trace_EzspCmd (on top of EzspCmd.tla and the header layouts of EzspCodec.tla) states what arbitrary bytes "
              "arriving as an EZSP frame may do: nothing; drop a registration with their sequence number; reach the callbacks exactly once "
